@@ -23,7 +23,10 @@ EXPLANATION = (
     "(associated_indices) is never inserted into the available set, every mem::swap(chosen, pool) is followed by removing the value "
     "now in the chosen place and inserting the value now in the pool place, and every index used for an add was taken out of the "
     "available collection in the same iteration or comes from the chosen side; (LF) largest-first sorts a copy of the available "
-    "indices by the selector, iterates it in reverse and adds only on the not-yet-covered edge. NOT decided: distinctness and "
+    "indices by the selector, iterates it in reverse and adds only on the not-yet-covered edge; (FRESH) no coverage comparison uses a value "
+    "read from a running total at a point from which that total can still be updated before the comparison (stale-read dataflow over the "
+    "CFG); (POST-gate) the success return is dominated by `actual >= required` on fresh get_total_input / get_total_output + min_fee "
+    "evaluated after the last addition - the running totals are bookkeeping, the verdict is on the builder's state. NOT decided: distinctness and "
     "coverage as observed values, per-asset coverage of the random multi-asset strategy (it has no final per-asset test), the quality "
     "of the improvement heuristic, overwriting of an equal outpoint already in the builder."
 )
